@@ -102,6 +102,16 @@ def check(run, P):
                      "with its kind, so it is not counted.")
 
 
+def _from_result_kinds(name, f: Func):
+    for s_ in func_body_stmts(f.node):
+        if isinstance(s_, ast.Assign) and any(isinstance(t, ast.Name) and t.id == name
+                                              for t in s_.targets) \
+                and isinstance(s_.value, ast.Call) \
+                and (dotted(s_.value.func) or "").endswith(".get_result_kinds"):
+            return True
+    return False
+
+
 def _kind_expr_ok(e, f: Func):
     """Is *e* a kind-valued expression form?"""
     if isinstance(e, ast.Call):
@@ -112,8 +122,12 @@ def _kind_expr_ok(e, f: Func):
             return True
     if isinstance(e, ast.Subscript):
         d = dotted(e.value) or ""
-        if d in ("self.global_table", "self.local_table", "z"):
+        if d in ("self.global_table", "self.local_table"):
             return True
+        if isinstance(e.value, ast.Name) and _from_result_kinds(e.value.id, f):
+            return True
+    if isinstance(e, ast.Name) and _from_result_kinds(e.id, f):
+        return True
     if isinstance(e, ast.Name):
         # local holding a kind: assigned from a kind expression / accumulated by unify
         for s in func_body_stmts(f.node):
